@@ -41,6 +41,7 @@ import (
 
 	"github.com/WuKongIM/WuKongIM/pkg/db/internal/engine"
 	metadb "github.com/WuKongIM/WuKongIM/pkg/db/meta"
+	"github.com/WuKongIM/WuKongIM/pkg/protocol/channelid"
 	"github.com/WuKongIM/WuKongIM/pkg/slot/fsm"
 	"github.com/WuKongIM/WuKongIM/pkg/slot/multiraft"
 	"github.com/WuKongIM/WuKongIM/pkg/zzverif/ev"
@@ -52,16 +53,19 @@ const (
 	c16xHS     = uint16(7)
 	c16xSlot   = uint64(8)
 	c16xUID    = "u1"
-	c16xChan   = "g1" // the contended membership row
-	c16xChanBy = "g0" // bystander row of the same uid (never written during the race)
-	c16xType   = int64(2)
+	c16xType   = int64(1) // person channels: the slot FSM's ensure command accepts nothing else
 	c16xCmd    = "u1____cmd"
 	c16xCmdTyp = int64(1)
 
 	c16xReportCap = 2
 )
 
-var c16xCtx = context.Background()
+var (
+	c16xCtx = context.Background()
+	// the contended membership row and a bystander row of the same uid (never written during the race)
+	c16xChan   = channelid.EncodePersonChannel(c16xUID, "p1")
+	c16xChanBy = channelid.EncodePersonChannel(c16xUID, "p0")
+)
 
 // ---------------------------------------------------------------- operations
 
@@ -630,7 +634,7 @@ func c16xSpecs(r *ev.R) []c16xSpec {
 	}
 	if !thorough {
 		// the slot FSM as the second writer: one pair per Shard mutate helper / upsert path
-		for _, p := range [][3]string{{"cu:s1a4", "ca:7", "ca:9"}, {"cu:s1a4", "ca:7", "ct:40"}, {"up:v1", "rd:7", "rd:9"}, {"up:v1", "hd:6", "up:v2T"}} {
+		for _, p := range [][3]string{{"cu:s1a4", "ca:7", "ca:9"}, {"cu:s1a4", "ca:7", "ct:40"}, {"up:v1", "rd:7", "rd:9"}, {"up:v1", "hd:6", "up:v2T"}, {"up:v1", "rd:7", "en:v2"}} {
 			specs = append(specs, c16xSpec{Name: fmt.Sprintf("race-%s-vs-fsm-%s-%s-BA", strings.ReplaceAll(p[1], ":", "."), strings.ReplaceAll(p[2], ":", "."), strings.ReplaceAll(p[0], ":", ".")),
 				Seed: []string{p[0]}, A: p[1], B: p[2], Via: "fsm", Order: "BA", Bound: 2})
 		}
